@@ -115,6 +115,13 @@ struct Result {
     }
 };
 
+// ---- tolerant access to private members of the library under test ---------------------------
+// PEEK(obj, expr-in-terms-of-o, fallback): evaluates expr if it compiles for obj's type, else yields fallback. A refactoring that renames or
+// removes a private member therefore degrades a diagnostic / a state digest instead of breaking the harness build.
+template <class F, class O, class D> auto peek_impl(F&& f, O& o, D, int) -> decltype(f(o)) { return f(o); }
+template <class F, class O, class D> D peek_impl(F&&, O&, D d, long) { return d; }
+#define PEEK(obj, expr, fallback) vh::peek_impl([&](auto& o) -> decltype(expr) { return expr; }, obj, fallback, 0)
+
 // ---- command line ------------------------------------------------------------------------
 struct Args {
     std::string tier = "quick", out, replay, mode; uint64_t seed = 0; int jobs = 16; double deadline_s = 840; double t0 = now_s();
